@@ -76,14 +76,33 @@ Example C01_nv_stage3 :
   fst (run 5000 nv_s3) = [[49]; [57]; [49; 54]; [103; 116]; [50; 53]; [54]]%N.
 Proof. vm_compute. repeat split. Qed.
 
+(* ---------------------------------------------------------------- stage 3b: from loops (named counter, literal step) *)
+Definition vj : str := [106%N].   Definition vn : str := [110%N].
+Definition nv_s4 : source :=
+  [ SAssign vn (EInt 7); SAssign vacc (EInt 0);
+    SFrom (EBin BSub (EVar vn) (EInt 7)) (EVar vn) true (Some (EInt 2)) (Some vi) false
+      [ SIf (EBin BEq (EVar vi) (EInt 2)) [ SContinue ];
+        SFrom (EInt 0) (EVar vi) false None (Some vj) false
+          [ SIf (EBin BGt (EVar vj) (EInt 3)) [ SBreak ];
+            SOpAssign vacc BAdd (EBin BMul (EVar vi) (EVar vj)) ];
+        SWhile (EBin BGt (EVar vacc) (EInt 40)) [ SOpAssign vacc BSub (EInt 15); SIf (EBin BLt (EVar vacc) (EInt 30)) [ SBreak ] ];
+        SPrint (EBin BAdd (EBin BAdd (EVar vi) (EStr [58%N])) (EVar vacc)) ];
+    SPrint (EVar vacc) ].
+Example C01_nv_stage3_from :
+  ok_block false [] nv_s4 = true /\
+  vm_out nv_s4 5000 = (fst (run 5000 nv_s4), Done) /\ snd (run 5000 nv_s4) = RODone /\
+  length (fst (run 5000 nv_s4)) = 4.
+Proof. vm_compute. repeat split. Qed.
+
 (* ---------------------------------------------------------------- the theorems apply *)
 Example C01_nv_theorem_applies : exists fuel',
-  fst (fst (execute fuel' (cprogram nvp nv_s3) (s_module_fn nvp))) = fst (run 5000 nv_s3) /\
-  snd (fst (execute fuel' (cprogram nvp nv_s3) (s_module_fn nvp))) = Done.
+  fst (fst (execute fuel' (cprogram nvp nv_s4) (s_module_fn nvp))) = fst (run 5000 nv_s4) /\
+  snd (fst (execute fuel' (cprogram nvp nv_s4) (s_module_fn nvp))) = Done.
 Proof.
-  destruct (module_correct nvp nv_s3 ltac:(vm_compute; reflexivity) ltac:(vm_compute; reflexivity) 5000
-              ltac:(vm_compute; discriminate)) as (fuel' & H1 & H2).
-  exists fuel'. split; [exact H1|].
-  change (snd (run 5000 nv_s3)) with RODone in H2.
-  destruct (snd (fst (execute fuel' (cprogram nvp nv_s3) (s_module_fn nvp)))); try contradiction. reflexivity.
+  destruct (module_correct nvp nv_s4 ltac:(vm_compute; reflexivity) ltac:(vm_compute; reflexivity) 5000
+              ltac:(vm_compute; discriminate)) as [Hn|(fuel' & H1 & H2)].
+  - change (snd (run 5000 nv_s4)) with RODone in Hn. destruct Hn.
+  - exists fuel'. split; [exact H1|].
+    change (snd (run 5000 nv_s4)) with RODone in H2.
+    destruct (snd (fst (execute fuel' (cprogram nvp nv_s4) (s_module_fn nvp)))); try contradiction. reflexivity.
 Qed.
